@@ -110,8 +110,14 @@ def foreign(rng, depth=0):
             s += foreign(rng, depth + 1)
         elif r < 0.75:
             s += start_tag(rng) + rng.choice(["", "x"]) + end_tag(rng)
-        elif r < 0.85:
+        elif r < 0.82:
             s += rng.choice(["</p>", "</br>", "<p>", "<b>", "<font color=red>", "<font>", "<FONT SIZE=1>"])
+        elif r < 0.9:
+            # an integration point whose content has end tags with unhashable names (RequestLexeme on an END tag:
+            # check_integration_point_exit), directly followed by start tags
+            ip = rng.choice(["mi", "mo", "mtext", "desc", "title", "foreignObject", "annotation-xml encoding=text/html"])
+            s += "<" + ip + ">" + rng.choice(["</x-custom>", "</my:el>", "</annotation-xml>", "</a1-b>", "</é>"]) \
+                + rng.choice(["<b>", "<textarea>", "<i class=x>", "<script>", "<q7>"]) + rng.choice(["x", "</b>", ""])
         else:
             s += text(rng)
     if rng.random() < 0.8:
